@@ -361,6 +361,14 @@ class Sym:
 
     def bin_type(self, t):
         """type of an integer expression term (best effort)"""
+        t0 = t
+        while t0[0] in ("ref", "deref"):
+            t0 = t0[1]
+        if t0[0] == "call" and len(t0[2]) == 1 and short(t0[1]) in ("From::from", "Into::into"):
+            # widening conversion: the type of the result, not of the operand
+            ty = self.type_of(t0)
+            if ty is not None and ty.get("k") == "int":
+                return ty
         t = strip(t)
         if t[0] == "const":
             w = {"u8": (8, False), "u16": (16, False), "u32": (32, False), "u64": (64, False), "u128": (128, False), "usize": (64, False),
@@ -1137,6 +1145,13 @@ class Sym:
                 return None
             bty = self.type_of(base, depth + 1)
             if bty is None:
+                return None
+            if bty.get("k") == "closure" and bty.get("p") == self.an.body.path:
+                # captured variable of this closure: type from the upvar debug info
+                for uv in self.an.body.j.get("upvars") or []:
+                    for pr in uv["p"]["pr"]:
+                        if pr.get("k") == "field" and pr.get("i") == t[2] and pr.get("ty"):
+                            return unref(pr["ty"])
                 return None
             if bty.get("k") == "tuple" and t[2] < len(bty["ts"]):
                 return unref(bty["ts"][t[2]])
